@@ -26,6 +26,15 @@ func (i *IRCServer) cmdTopic(s *Session, reply *Replyctx, msg *irc.Message) {
 		return
 	}
 
+	if !s.Channels[ChanToLower(channel)] {
+		i.sendUser(s, reply, &irc.Message{
+			Prefix:  i.ServerPrefix,
+			Command: irc.ERR_NOTONCHANNEL,
+			Params:  []string{s.Nick, channel, "You're not on that channel"},
+		})
+		return
+	}
+
 	// “TOPIC :”, i.e. unset the topic.
 	if msg.Trailing() == "" && len(msg.Params) == 2 {
 		if c.modes['t'] && !c.nicks[NickToLower(s.Nick)][chanop] {
@@ -50,15 +59,6 @@ func (i *IRCServer) cmdTopic(s *Session, reply *Replyctx, msg *irc.Message) {
 			Prefix:  &irc.Prefix{Name: s.Nick},
 			Command: irc.TOPIC,
 			Params:  []string{channel, s.Nick, "0", msg.Trailing()},
-		})
-		return
-	}
-
-	if !s.Channels[ChanToLower(channel)] {
-		i.sendUser(s, reply, &irc.Message{
-			Prefix:  i.ServerPrefix,
-			Command: irc.ERR_NOTONCHANNEL,
-			Params:  []string{s.Nick, channel, "You're not on that channel"},
 		})
 		return
 	}
